@@ -101,12 +101,15 @@ class Exclusivity(O.Monitor):
         for ind in inds:
             for r in ind.data_records:
                 if r.node in node_ids and r.record_type in ("service", "interrupted service") and r.server_id is not False:
-                    per.setdefault((r.node, r.server_id), []).append((float(r.service_start_date), float(r.exit_date), r.id_number))
+                    per.setdefault((r.node, r.server_id), []).append((float(r.service_start_date), float(r.exit_date), r.id_number, float(r.arrival_date)))
         for key, ivs in per.items():
             ivs.sort()
             if len(ivs) >= 5:
                 self.activity["servers_with_5_completions"] = self.activity.get("servers_with_5_completions", 0) + 1
             for a, b in zip(ivs, ivs[1:]):
+                if a[2] == b[2] and a[3] == b[3]:
+                    continue    # records of one visit of one customer: a blocked customer interrupted at a shift end is, by design,
+                                # released with its original service interval restored (pinned by test_resuming_interruption_after_blockage)
                 if b[0] < a[1] - 1e-12:
                     Q.report(self.P, "C04.service-intervals-of-one-server-overlap", "audit",
                              {"node": key[0], "server": key[1], "first": a, "second": b})
